@@ -54,10 +54,13 @@ def vocab_of(projs):
 
 
 class Gen:
-    def __init__(self, rng, vocab, depth=3):
+    def __init__(self, rng, vocab, depth=3, allow_never=None):
         self.rng = rng
         self.v = vocab
         self.depth = depth
+        # `[!]` components make a whole pattern constant; the accumulation model (joinref) does not fold constants, so the
+        # command-sequence checks (depth-1 generators) do not use them
+        self.allow_never = (depth >= 2) if allow_never is None else allow_never
 
     # ------------------------------------------------------------ words
     def near(self, w):
@@ -90,6 +93,8 @@ class Gen:
     def wl(self, pool, depth=None, allow_star=False):
         depth = self.depth if depth is None else depth
         r = self.rng.random()
+        if r > 0.985 and self.allow_never:
+            return {'never': True}
         if depth > 0 and r < 0.22:
             return self.list_of(lambda: self.wl(pool, depth - 1))
         if allow_star and r < 0.27:
@@ -108,6 +113,8 @@ class Gen:
     def ospec(self, depth=None):
         depth = self.depth if depth is None else depth
         r = self.rng.random()
+        if r > 0.985 and self.allow_never:
+            return {'never': True}
         if depth > 0 and r < 0.18:
             return self.list_of(lambda: self.ospec(depth - 1), allow_empty_pos=True)
         if r < 0.55:
@@ -130,6 +137,8 @@ class Gen:
         depth = self.depth if depth is None else depth
         v = self.v
         r = self.rng.random()
+        if r > 0.97 and self.allow_never:
+            return {'never': True}
         if depth > 0 and r < 0.15:
             return self.list_of(lambda: self.val(depth - 1))
         kinds = []
@@ -218,11 +227,53 @@ class Gen:
             p['args'] = self.arglist()
         return p
 
+    def twin(self, p):
+        """a copy of a pattern that PRINTS the same but means something else: one quoted string becomes a bare word (or the
+        other way round), an int becomes the string of its digits"""
+        import copy
+        q = copy.deepcopy(p)
+        done = []
+
+        def flip(v):
+            if done or not isinstance(v, dict):
+                return
+            if 'str' in v and ok_word(v['str']):
+                w = v.pop('str')
+                v['word'] = w
+                done.append(1)
+            elif 'word' in v and '*' not in v['word']:
+                w = v.pop('word')
+                v['str'] = w
+                done.append(1)
+            elif 'int' in v:
+                n = v.pop('int')
+                v['str'] = str(n)
+                done.append(1)
+            elif 'pos' in v:
+                for x in v['pos'] + v['neg']:
+                    flip(x)
+
+        def walk(item):
+            if 'pos' in item:
+                for x in item['pos'] + item['neg']:
+                    walk(x)
+            elif item.get('value') is not None:
+                flip(item['value'])
+        if q['args'] is None:
+            return None
+        for it in q['args']['pos'] + q['args']['neg']:
+            walk(it)
+        return q if done else None
+
     def matcher(self):
         r = self.rng.random()
         npos = self.rng.choice([1, 1, 1, 2, 3])
         nneg = 0 if r < 0.6 else self.rng.choice([1, 1, 2])
         pos = [self.pattern() for _ in range(npos)]
+        if self.rng.random() < 0.08:
+            t = self.twin(self.rng.choice(pos))
+            if t is not None:
+                pos.insert(self.rng.randrange(len(pos) + 1), t)
         if nneg and self.rng.random() < 0.3:
             pos = []      # "! x": everything except
         return {'pos': pos, 'neg': [self.pattern() for _ in range(nneg)]}
@@ -258,11 +309,15 @@ class Render:
         return '[' + self.sp() + s + self.sp() + ']'
 
     def wl(self, node):
+        if 'never' in node:
+            return '[' + self.sp() + '!' + self.sp() + ']'
         if 'w' in node:
             return self.brk(node['w'])
         return self.lst(node, self.wl)
 
     def ospec(self, node):
+        if 'never' in node:
+            return '[' + self.sp() + '!' + self.sp() + ']'
         if 'type' in node:
             return self.brk(node['type'])
         if 'id' in node:
@@ -270,6 +325,8 @@ class Render:
         return self.lst(node, self.ospec)
 
     def val(self, node):
+        if 'never' in node:
+            return '[' + self.sp() + '!' + self.sp() + ']'
         if 'int' in node:
             return self.brk(str(node['int']))
         if 'float' in node:
@@ -336,6 +393,8 @@ def shape(node, depth=0):
         if 'conn' in node:
             return 'P[%s|%s|%s|%s|%s]' % ('c' if node['conn'] else '', shape(node['obj']) if node['obj'] else '', shape(node['name']) if node['name'] else '',
                                          shape(node['args']) if node['args'] else '', 'b' if node['bare'] else '')
+        if 'never' in node:
+            return 'never'
         if 'w' in node:
             return 'w*' if '*' in node['w'] else 'w'
         if 'type' in node:
